@@ -32,6 +32,28 @@ def run(ctx):
     chk.residue.append("tracing's own span bookkeeping (which span is current on which thread) is not decided")
 
     # ---------------- C17.a
+    def _own(txt):
+        """the freshly built Labels of this callback: Labels::from_record(..), or Labels::default() filled by
+        attrs/values.record(&mut labels)"""
+        return "from_record" in txt or "default()" in txt
+
+    def _recorded_from(f, param):
+        """call sites that fill a fresh Labels from the callback's `param`-th argument (Labels::from_record(..) or
+        <param>.record(&mut Labels::default()))"""
+        out = []
+        for c in nonforeign_calls(f):
+            if c.fn is not f:
+                continue
+            if c.is_("Labels::from_record"):
+                a0 = arg_syms(c)[0]
+                if f"param#{param}" in sym_str(a0) or is_param(_root_arg(a0), param):
+                    out.append(c)
+            elif callee_method_name(c) == "record" and "tracing_core::span::" in (c.resolved or ""):
+                a = arg_syms(c)
+                if (is_param(_root_arg(a[0]), param) or f"param#{param}" in sym_str(a[0])) and "default()" in sym_str(a[1]):
+                    out.append(c)
+        return out
+
     ons = [f for f in t.fns if f.name == "on_new_span" and f.j.get("impl_self", "").endswith("MetricsLayer")]
     if len(ons) != 1:
         chk.unrecognised("C17.a", "<anchor> MetricsLayer::on_new_span", f"found {len(ons)}")
@@ -61,13 +83,13 @@ def run(ctx):
             from props.common import actual_of
 
             dst = actual_of(m0.fn, Sym(m0.fn).operand(m0.args[0]))
-            okp = okp and "from_record" in sym_str(dst)
+            okp = okp and _own(sym_str(dst))
         else:
             detail = f"parent lookups: {[callee_method_name(c) for c in nonforeign_calls(f) if 'parent' in callee_method_name(c) or 'lookup' in callee_method_name(c) or 'current' in callee_method_name(c)]}"
         chk.ob("C17.a", f"{f.path} [inherits from the registered parent]", okp, "every label of cx.span(id).parent()'s extensions is offered to the new span's own labels" if okp else f"inherited labels do not come (all) from the new span's registered parent ({detail}): with explicit parents (span!(parent: ..)) the thread's current span is a different span", f.loc())
         ins = [c for c in nonforeign_calls(f) if c.is_("ExtensionsMut<'a>::insert", "insert") and "Extensions" in (c.resolved or "")]
-        fr = [c for c in nonforeign_calls(f) if c.is_("Labels::from_record")]
-        oki = len(ins) == 1 and len(fr) == 1 and "attrs" in sym_str(arg_syms(fr[0])[0]).lower() or (len(ins) == 1 and len(fr) == 1 and is_param(_root_arg(arg_syms(fr[0])[0]), 1))
+        fr = _recorded_from(f, 1)
+        oki = len(ins) == 1 and len(fr) == 1 and _own(sym_str(arg_syms(ins[0])[1]))
         chk.ob("C17.a", f"{f.path} [own fields stored]", oki, "labels = from_record(attrs.values()) stored in the span's extensions" if oki else "the span's own fields are not recorded into its extensions", f.loc(), nontrivial=False)
     onr = [f for f in t.fns if f.name == "on_record" and f.j.get("impl_self", "").endswith("MetricsLayer")]
     if len(onr) == 1:
@@ -83,7 +105,7 @@ def run(ctx):
             from props.common import actual_of
 
             dst = actual_of(muts[0].fn, Sym(muts[0].fn).operand(muts[0].args[0]))
-            ok = src is not None and "from_record" in sym_str(src) and "get_mut" in sym_str(dst)
+            ok = src is not None and _own(sym_str(src)) and "get_mut" in sym_str(dst) and len(_recorded_from(f, 2)) == 1
         chk.ob("C17.a", f"{f.path} [later record overwrites]", ok, "every newly recorded value is insert()ed over the span's existing labels" if ok else f"a later record() does not replace the span's earlier value (map operations {sorted(names)})", f.loc())
     else:
         chk.unrecognised("C17.a", "<anchor> MetricsLayer::on_record", f"found {len(onr)}")
